@@ -27,6 +27,15 @@ def run_property(pid, tier, repo=None, write=True):
     rep = report.Report(pid, tier)
     try:
         idx = get_index(repo)
+        # what the canonical view changed in the parsed trees (core/canon.py); empty lists on the pinned tree
+        view = {"renamed_private_attributes": dict(sorted(getattr(idx, "renamed", {}).items())),
+                "helpers_opened": {k: sorted(set(v)) for k, v in sorted(getattr(idx, "inlined", {}).items())},
+                "constant_tables": sorted(getattr(idx, "propagated", {})),
+                "expression_helpers": {k: sorted(set(v)) for k, v in sorted(getattr(idx, "opened", {}).items())},
+                "cursor_lists": {k: v for k, v in sorted(getattr(idx, "scalarised", {}).items())},
+                "sum_loops": {k: v for k, v in sorted(getattr(idx, "sums", {}).items())},
+                "extend_loops": {k: v for k, v in sorted(getattr(idx, "extends", {}).items())}}
+        rep.notes.append({"canonical_view": {k: v for k, v in view.items() if v}})
         mod = importlib.import_module(f"sa.rules.{pid.lower()}")
         mod.run(rep, idx, tier)
     except AnchorMissing as e:
